@@ -35,7 +35,7 @@ LEVEL_NOTE = ('Trusted: libc errno is itself thread-local; helper C functions on
 ASSUMPTIONS = ['operation-granularity interleavings only (one operation runs at a time)',
                'gcc-built helper module/library reflect the C source shown in the check']
 BUDGET = {'quick': 1600, 'thorough': 120000}
-TIME = {'quick': 30, 'thorough': 1200}
+TIME = {'quick': 30, 'thorough': 900}
 MIN_PER_SHARD = 40
 
 CSRC = r'''
